@@ -21,6 +21,7 @@ from ..util import (
 )
 from ..errors import BadSignatureError
 from .registry import JWSRegistry
+from ..registry import check_disjoint_headers
 
 
 def serialize_json(
@@ -42,6 +43,7 @@ def serialize_json(
     if _member.protected["b64"] is True:
         return _serialize_json(member, payload, private_key, registry=registry)
 
+    check_disjoint_headers(_member.protected, _member.header)
     registry.check_header(headers)
 
     key = guess_key(private_key, _member, True)
